@@ -8,7 +8,13 @@
 //!          | (3 n modulate t0) the real TimeTrigger, interval n seconds, under the hook
 //!            clock (log4rs::verif_hooks::set_clock), which reads t0 (UTC seconds) at the
 //!            first build and is moved by the clock ops; TZ is forced to UTC
-//!   roller : (0) DeleteRoller | (1 base count gz) FixedWindowRoller
+//!   roller : (0) DeleteRoller | (1 base count gz [shape [bg]]) FixedWindowRoller;
+//!            shape 0: pattern <dir>/arch.{}.<ext>, 1: <dir>/ar{}/arch.{}.<ext> (index in a
+//!            directory component AND the file name), 2: <dir>/ar{}/arch.<ext>;
+//!            bg 1: the case is meant for the `background_rotation` build: after every op
+//!            a "pending" snapshot is taken at once, then the driver waits until no temp
+//!            file <active stem>.<digits> is left (rotation threads remove it last) before
+//!            the regular snapshot
 //!   pre    : (0) no file | (1 bytes) active file pre-exists with these bytes
 //!   a0     : builder append flag of the first build
 //!   ops    : (0 (chunk ...)) append one record whose encoder writes these chunks
@@ -16,12 +22,20 @@
 //!          | (2 ((rec ...) ...)) burst: one thread per list, released by a barrier,
 //!            each appending its records (rec = (chunk ...)) in order
 //!          | (3 t) set the hook clock to t (UTC seconds); no appender call
+//!          | (4 a) hot restart: build a second appender on the same path while the
+//!            current one stays alive as "the old instance"
+//!          | (5 (chunk ...)) append through the old instance (the current one if none)
+//!          | (6) drop the old instance
+//!          | (7 (chunk ...)) append while the roller is set to fail: if the policy calls
+//!            Roll::roll it returns Err without touching the directory
 //! result: one entry per op (entry 0 = the initial build):
-//!   ( ((shown disk rolled) ...) ((kind idx bytes) ...) errors [order] )
-//!   consultations seen by a Policy wrapped around the real CompoundPolicy,
-//!   directory snapshot (kind 0 active, 1 archive idx, 2 other; .gz gunzipped),
-//!   number of failed calls, and for a burst the (thread rec) order in which the
-//!   encoder was entered (= lock acquisition order).
+//!   ( ((shown disk requested gone) ...) ((kind idx bytes) ...) errors [order [pending]] )
+//!   consultations seen by a Policy wrapped around the real CompoundPolicy (requested =
+//!   Roll::roll was called during this consultation, gone = the active file does not
+//!   exist afterwards), directory snapshot (kind 0 active, 1 archive idx, 2 other,
+//!   3 temp file of a background rotation; .gz gunzipped), number of failed calls, for
+//!   a burst the (thread rec) order in which the encoder was entered (= lock acquisition
+//!   order; () otherwise), for bg cases the pending snapshot (() if none was consistent).
 use log4rs::append::rolling_file::policy::compound::roll::delete::DeleteRoller;
 use log4rs::append::rolling_file::policy::compound::roll::fixed_window::FixedWindowRoller;
 use log4rs::append::rolling_file::policy::compound::roll::Roll;
@@ -62,10 +76,29 @@ impl Trigger for ScriptTrigger {
 
 type Log = Arc<Mutex<Vec<Val>>>;
 
+/// Roller wrapper: counts the calls and fails on demand before touching anything.
+#[derive(Debug)]
+struct SpyRoll {
+    inner: Box<dyn Roll>,
+    fail: Arc<std::sync::atomic::AtomicBool>,
+    calls: Arc<AtomicUsize>,
+}
+
+impl Roll for SpyRoll {
+    fn roll(&self, file: &Path) -> anyhow::Result<()> {
+        self.calls.fetch_add(1, Ordering::SeqCst);
+        if self.fail.load(Ordering::SeqCst) {
+            anyhow::bail!("scripted roller failure");
+        }
+        self.inner.roll(file)
+    }
+}
+
 #[derive(Debug)]
 struct SpyPolicy {
     inner: CompoundPolicy,
     log: Log,
+    calls: Arc<AtomicUsize>,
 }
 
 impl Policy for SpyPolicy {
@@ -75,12 +108,16 @@ impl Policy for SpyPolicy {
             Ok(m) => Val::N(m.len() as u128),
             Err(_) => Val::L(vec![]),
         };
+        let before = self.calls.load(Ordering::SeqCst);
         let r = self.inner.process(log);
-        let rolled = !log.path().exists();
-        self.log
-            .lock()
-            .unwrap()
-            .push(Val::L(vec![Val::N(shown), disk, Val::bool(rolled)]));
+        let requested = self.calls.load(Ordering::SeqCst) > before;
+        let gone = !log.path().exists();
+        self.log.lock().unwrap().push(Val::L(vec![
+            Val::N(shown),
+            disk,
+            Val::bool(requested),
+            Val::bool(gone),
+        ]));
         r
     }
     fn is_pre_process(&self) -> bool {
@@ -115,6 +152,12 @@ struct Ctx {
     consults: Log,
     idx: Arc<AtomicUsize>,
     script: Arc<Vec<u128>>,
+    fail: Arc<std::sync::atomic::AtomicBool>,
+    calls: Arc<AtomicUsize>,
+}
+
+fn opt(v: &[Val], i: usize) -> u128 {
+    v.get(i).map(|x| x.n()).unwrap_or(0)
 }
 
 impl Ctx {
@@ -143,11 +186,16 @@ impl Ctx {
             }),
         };
         let r = self.roller.l();
-        let roller: Box<dyn Roll> = match r[0].n() {
+        let inner: Box<dyn Roll> = match r[0].n() {
             0 => Box::new(DeleteRoller::new()),
             _ => {
                 let ext = if r[3].b() { "gz" } else { "log" };
-                let pattern = format!("{}/arch.{{}}.{}", self.dir.display(), ext);
+                let d = self.dir.display();
+                let pattern = match opt(r, 4) {
+                    0 => format!("{}/arch.{{}}.{}", d, ext),
+                    1 => format!("{}/ar{{}}/arch.{{}}.{}", d, ext),
+                    _ => format!("{}/ar{{}}/arch.{}", d, ext),
+                };
                 Box::new(
                     FixedWindowRoller::builder()
                         .base(r[1].n() as u32)
@@ -155,9 +203,15 @@ impl Ctx {
                 )
             }
         };
+        let roller: Box<dyn Roll> = Box::new(SpyRoll {
+            inner,
+            fail: self.fail.clone(),
+            calls: self.calls.clone(),
+        });
         let policy = SpyPolicy {
             inner: CompoundPolicy::new(trigger, roller),
             log: self.consults.clone(),
+            calls: self.calls.clone(),
         };
         let enc = ChunkEncoder {
             table: self.table.clone(),
@@ -169,41 +223,143 @@ impl Ctx {
             .build(self.active(), Box::new(policy))?)
     }
 
-    fn snapshot(&self) -> Val {
-        let mut ents: Vec<(u128, u128, Vec<u8>)> = Vec::new();
-        for e in std::fs::read_dir(&self.dir).unwrap() {
-            let e = e.unwrap();
-            let name = e.file_name().to_string_lossy().to_string();
-            let raw = std::fs::read(e.path()).unwrap_or_else(|_| b"<unreadable>".to_vec());
-            if name == "cur.log" {
-                ents.push((0, 0, raw));
-                continue;
-            }
-            let parts: Vec<&str> = name.split('.').collect();
-            if parts.len() == 3 && parts[0] == "arch" {
-                if let Ok(i) = parts[1].parse::<u128>() {
-                    if parts[2] == "log" {
-                        ents.push((1, i, raw));
-                        continue;
-                    }
-                    if parts[2] == "gz" {
-                        let mut out = Vec::new();
-                        let ok = flate2::read::GzDecoder::new(&raw[..]).read_to_end(&mut out).is_ok();
-                        if ok {
-                            ents.push((1, i, out));
-                            continue;
-                        }
+    /// all regular files under the directory as (relative name, size)
+    fn listing(&self) -> Vec<(String, u64)> {
+        fn walk(base: &Path, d: &Path, out: &mut Vec<(String, u64)>) {
+            if let Ok(rd) = std::fs::read_dir(d) {
+                for e in rd.flatten() {
+                    let p = e.path();
+                    match e.metadata() {
+                        Ok(m) if m.is_dir() => walk(base, &p, out),
+                        Ok(m) => out.push((
+                            p.strip_prefix(base).unwrap().to_string_lossy().to_string(),
+                            m.len(),
+                        )),
+                        Err(_) => {}
                     }
                 }
             }
-            ents.push((2, 0, name.into_bytes()));
+        }
+        let mut out = Vec::new();
+        walk(&self.dir, &self.dir, &mut out);
+        out.sort();
+        out
+    }
+
+    /// (kind, idx) of a relative file name
+    fn classify(name: &str) -> (u128, u128, bool) {
+        if name == "cur.log" {
+            return (0, 0, false);
+        }
+        if let Some(d) = name.strip_prefix("cur.") {
+            if !d.is_empty() && d.bytes().all(|b| b.is_ascii_digit()) {
+                return (3, d.parse::<u128>().unwrap_or(0), false);
+            }
+        }
+        let comps: Vec<&str> = name.split('/').collect();
+        let dir_idx = if comps.len() == 2 {
+            match comps[0].strip_prefix("ar").and_then(|x| x.parse::<u128>().ok()) {
+                Some(i) => Some(i),
+                None => return (2, 0, false),
+            }
+        } else if comps.len() == 1 {
+            None
+        } else {
+            return (2, 0, false);
+        };
+        let parts: Vec<&str> = comps[comps.len() - 1].split('.').collect();
+        if parts[0] != "arch" {
+            return (2, 0, false);
+        }
+        let (file_idx, ext) = match parts.len() {
+            3 => match parts[1].parse::<u128>() {
+                Ok(i) => (Some(i), parts[2]),
+                Err(_) => return (2, 0, false),
+            },
+            2 => (None, parts[1]),
+            _ => return (2, 0, false),
+        };
+        if ext != "log" && ext != "gz" {
+            return (2, 0, false);
+        }
+        let idx = match (dir_idx, file_idx) {
+            (Some(a), Some(b)) if a == b => a,
+            (Some(a), None) => a,
+            (None, Some(b)) => b,
+            _ => return (2, 0, false),
+        };
+        (1, idx, ext == "gz")
+    }
+
+    /// Some(snapshot) if every listed file could be read (and gunzipped)
+    fn try_snapshot(&self, strict: bool) -> Option<Val> {
+        let mut ents: Vec<(u128, u128, Vec<u8>)> = Vec::new();
+        for (name, _) in self.listing() {
+            let (kind, idx, gz) = Ctx::classify(&name);
+            let raw = match std::fs::read(self.dir.join(&name)) {
+                Ok(r) => r,
+                Err(_) if strict => return None,
+                Err(_) => b"<unreadable>".to_vec(),
+            };
+            if kind == 2 {
+                ents.push((2, 0, name.into_bytes()));
+            } else if gz {
+                let mut out = Vec::new();
+                if flate2::read::GzDecoder::new(&raw[..]).read_to_end(&mut out).is_ok() {
+                    ents.push((kind, idx, out));
+                } else if strict {
+                    return None;
+                } else {
+                    ents.push((2, 0, name.into_bytes()));
+                }
+            } else {
+                ents.push((kind, idx, raw));
+            }
         }
         ents.sort();
-        Val::L(
+        Some(Val::L(
             ents.into_iter()
                 .map(|(k, i, b)| Val::L(vec![Val::N(k), Val::N(i), Val::S(b)]))
                 .collect(),
-        )
+        ))
+    }
+
+    fn snapshot(&self) -> Val {
+        self.try_snapshot(false).unwrap()
+    }
+
+    /// snapshot while background rotations may be running: accepted only if the
+    /// listing (names, sizes) is the same before and after reading and every file
+    /// could be read; () if no such snapshot was obtained
+    fn pending_snapshot(&self) -> Val {
+        for _ in 0..6 {
+            let l1 = self.listing();
+            if let Some(s) = self.try_snapshot(true) {
+                if self.listing() == l1 {
+                    return s;
+                }
+            }
+        }
+        Val::L(vec![])
+    }
+
+    /// wait until no temp file of a background rotation is left (each rotation
+    /// thread removes its temp file as its last file-system action); bounded
+    fn wait_quiescent(&self) {
+        let t0 = std::time::Instant::now();
+        loop {
+            let busy = self.listing().iter().any(|(n, _)| Ctx::classify(n).0 == 3);
+            if !busy {
+                std::thread::sleep(std::time::Duration::from_millis(1));
+                if !self.listing().iter().any(|(n, _)| Ctx::classify(n).0 == 3) {
+                    return;
+                }
+            }
+            if t0.elapsed() > std::time::Duration::from_secs(5) {
+                return;
+            }
+            std::thread::sleep(std::time::Duration::from_micros(300));
+        }
     }
 
     fn take_consults(&self) -> Val {
@@ -248,7 +404,7 @@ pub fn run(case: &Val) -> Val {
     for o in c[4].l() {
         let o = o.l();
         match o[0].n() {
-            0 => table.push(chunks_of(&o[1])),
+            0 | 5 | 7 => table.push(chunks_of(&o[1])),
             2 => {
                 for th in o[1].l() {
                     for r in th.l() {
@@ -273,7 +429,11 @@ pub fn run(case: &Val) -> Val {
         consults: Arc::new(Mutex::new(Vec::new())),
         idx: Arc::new(AtomicUsize::new(0)),
         script: Arc::new(script),
+        fail: Arc::new(std::sync::atomic::AtomicBool::new(false)),
+        calls: Arc::new(AtomicUsize::new(0)),
     };
+    let bg = c[1].l()[0].n() == 1 && opt(c[1].l(), 5) == 1;
+    let mut old: Option<RollingFileAppender> = None;
     if c[2].l()[0].n() == 1 {
         std::fs::write(ctx.active(), c[2].l()[1].s()).unwrap();
     }
@@ -293,17 +453,38 @@ pub fn run(case: &Val) -> Val {
         let mut errors = 0u128;
         let mut extra: Option<Val> = None;
         match o[0].n() {
-            0 => {
-                let ok = match &app {
+            0 | 5 | 7 => {
+                let k = o[0].n();
+                if k == 7 {
+                    ctx.fail.store(true, Ordering::SeqCst);
+                }
+                let target = if k == 5 && old.is_some() { &old } else { &app };
+                let ok = match target {
                     Some(a) => append_id(a, next_id),
                     None => false,
                 };
+                ctx.fail.store(false, Ordering::SeqCst);
                 next_id += 1;
                 if !ok {
                     errors += 1;
                 }
             }
+            4 => {
+                // hot restart: the previous instance stays in service
+                if let Some(prev) = old.take() {
+                    drop(prev);
+                }
+                old = app.take();
+                app = ctx.build(o[1].b()).ok();
+                if app.is_none() {
+                    errors += 1;
+                }
+            }
+            6 => {
+                drop(old.take());
+            }
             1 => {
+                drop(old.take());
                 drop(app.take());
                 app = ctx.build(o[1].b()).ok();
                 if app.is_none() {
@@ -361,12 +542,20 @@ pub fn run(case: &Val) -> Val {
                 ));
             }
         }
+        let pending = if bg { Some(ctx.pending_snapshot()) } else { None };
+        if bg {
+            ctx.wait_quiescent();
+        }
         let mut ent = vec![ctx.take_consults(), ctx.snapshot(), Val::N(errors)];
-        if let Some(e) = extra {
-            ent.push(e);
+        if extra.is_some() || pending.is_some() {
+            ent.push(extra.unwrap_or(Val::L(vec![])));
+        }
+        if let Some(p) = pending {
+            ent.push(p);
         }
         out.push(Val::L(ent));
     }
+    drop(old);
     drop(app);
     Val::L(out)
 }
